@@ -96,3 +96,227 @@ example : runValidator default ⟨"min", "3"⟩ (.scalar (.int 5)) = none := by 
 example : runValidator default ⟨"required", ""⟩ (.ptr none) = some .required := by decide
 
 end Ucfg.C04
+
+namespace Ucfg.C04
+open Ucfg
+
+/-! ### the lifted statement for structs of primitive fields
+
+For a target struct all of whose fields are of primitive kinds (any tags, any validators, any pre-filled values),
+a successful field loop returns a struct on which the recursive validation used by Unpack itself
+(`recValidateFields`, i.e. tryRecursiveValidate) reports nothing. The proof goes through every branch a primitive
+field can take: skipped, absent from the configuration (validated as it is), present (converted, then validated). -/
+
+/-- a primitive slot is filled by reifyPrimitive whatever it held -/
+theorem mergeValue_prim (std : Stdlib) (n : Nat) (fo : FOpts) (k : Kind) (old : GoVal) (v : Val) :
+    mergeValue std (n+1) fo (.prim k) old v = reifyPrimitiveT std fo (.prim k) v := by
+  unfold mergeValue
+  cases old <;> rfl
+
+/-- validating a value of primitive type looks at the field's validators only -/
+theorem recValidate_prim (std : Stdlib) (o : Opts) (k : Kind) (vs : List VTag) (x : GoVal) :
+    recValidate std o (.prim k) vs x = runValidators std vs x := by
+  unfold recValidate
+  cases h : runValidators std vs x with
+  | some e => rfl
+  | none => cases x <;> rfl
+
+/-- what reifyPrimitive returns for a primitive kind passes the field's validators (nil settings give the zero value
+and are the one exception the Go code makes: "zero initialize value if val==nil") -/
+theorem reifyPrimitiveT_prim_validated (std : Stdlib) (fo : FOpts) (k : Kind) (v : Val) (r : GoVal)
+    (hv : v.isNilPrim = false) (h : reifyPrimitiveT std fo (.prim k) v = .ok r) :
+    runValidators std fo.validators r = none := by
+  have hs : ∃ s, r = .scalar s := by
+    unfold reifyPrimitiveT at h
+    simp only [hv, Bool.false_eq_true, if_false] at h
+    cases v with
+    | prim p =>
+      simp only at h
+      cases hp : reifyPrim std k p with
+      | ok s' =>
+        rw [hp] at h
+        simp only at h
+        cases hr : runValidators std fo.validators (.scalar s') with
+        | none => rw [hr] at h; simp only at h; cases h; exact ⟨s', rfl⟩
+        | some e => rw [hr] at h; simp [raiseValidation] at h
+      | err e => rw [hp] at h; simp at h
+      | panic m => rw [hp] at h; simp at h
+      | fuel => rw [hp] at h; simp at h
+    | dyn i e => simp at h
+    | sub d a hd ha => simp at h
+  obtain ⟨s, rfl⟩ := hs
+  exact primitive_validated std fo k v s hv h
+
+/-- reifyGetField for a field of primitive kind: whatever comes back (the untouched pre-filled value when the setting is
+absent, the converted setting otherwise) passes the field's validators -/
+theorem getField_prim_validated (std : Stdlib) (n : Nat) (fo : FOpts) (k : Kind) (x : GoVal) (cfg : Val) (name : String)
+    (r : GoVal) (h : getField' std n fo (.prim k) x cfg name = .ok r) :
+    runValidators std fo.validators r = none := by
+  cases n with
+  | zero => simp [getField'] at h
+  | succ m =>
+    -- everything after the lookup, for whatever the lookup produced
+    have core : ∀ vo : Option Val,
+        (if Val.isNilOpt vo = true then
+            (match recValidate std fo.opts (.prim k) fo.validators x with
+             | some e => raiseValidation e
+             | none => (.ok x : Outcome GoVal))
+          else
+            match vo with
+            | some v => (do
+                let nx ← mergeValue std m fo (.prim k) x v
+                match (Ty.prim k), nx with
+                | .iface, .iface none => .ok x
+                | _, nx => .ok nx)
+            | none => .ok x) = .ok r → runValidators std fo.validators r = none := by
+      intro vo hcore
+      by_cases hnil : Val.isNilOpt vo = true
+      · simp only [hnil, if_true] at hcore
+        rw [recValidate_prim] at hcore
+        cases hr : runValidators std fo.validators x with
+        | some e => rw [hr] at hcore; simp [raiseValidation] at hcore
+        | none => rw [hr] at hcore; simp only at hcore; cases hcore; exact hr
+      · have hnil' : Val.isNilOpt vo = false := by simpa using hnil
+        simp only [hnil', Bool.false_eq_true, if_false] at hcore
+        cases vo with
+        | none => simp [Val.isNilOpt] at hnil'
+        | some v =>
+          have hv : v.isNilPrim = false := by simpa [Val.isNilOpt] using hnil'
+          simp only at hcore
+          cases m with
+          | zero => simp [mergeValue, Outcome.bind] at hcore
+          | succ m' =>
+            rw [mergeValue_prim] at hcore
+            cases hp : reifyPrimitiveT std fo (.prim k) v with
+            | ok nx =>
+              rw [hp] at hcore
+              simp only [Outcome.bind_ok] at hcore
+              have hval := reifyPrimitiveT_prim_validated std fo k v nx hv hp
+              cases nx <;> simp at hcore <;> (subst hcore; exact hval)
+            | err e => rw [hp] at hcore; simp [Outcome.bind] at hcore
+            | panic s => rw [hp] at hcore; simp [Outcome.bind] at hcore
+            | fuel => rw [hp] at hcore; simp [Outcome.bind] at hcore
+    unfold getField' at h
+    simp only at h
+    cases hpg : pathGet tcPlain (parsePathOpts name fo.opts) cfg with
+    | ok vo => rw [hpg] at h; simp only at h; exact core vo h
+    | err e =>
+      rw [hpg] at h
+      simp only at h
+      by_cases hm : e.reason = Reason.missing
+      · simp only [hm, if_true] at h; exact core none h
+      · simp [hm] at h
+    | panic s => rw [hpg] at h; simp at h
+    | fuel => rw [hpg] at h; simp at h
+
+/-- every field of the struct type is of a primitive kind -/
+def FlatPrim (fs : List (String × String × String × Ty)) : Prop := ∀ f ∈ fs, ∃ k, f.2.2.2 = Ty.prim k
+
+/-- C04 for structs of primitive fields: a field loop that succeeds returns values on which the recursive validation
+reports nothing - for every list of fields, tags and validators, every pre-filled struct and every configuration -/
+theorem flat_struct_valid (std : Stdlib) (o : Opts) :
+    ∀ (fs : List (String × String × String × Ty)) (n : Nat) (xs xs' : List GoVal) (cfg : Val),
+      FlatPrim fs → reifyStructT std n o fs xs cfg = .ok xs' → recValidateFields std o fs xs' = none := by
+  intro fs
+  induction fs with
+  | nil =>
+    intro n xs xs' cfg _ h
+    cases xs' <;> simp [recValidateFields]
+  | cons f fr ih =>
+    intro n xs xs' cfg hflat h
+    obtain ⟨g, tag, vtag, t⟩ := f
+    obtain ⟨k, hk⟩ := hflat (g, tag, vtag, t) (by simp)
+    simp only at hk
+    subst hk
+    have hflat' : FlatPrim fr := fun f hf => hflat f (List.mem_cons_of_mem _ hf)
+    cases n with
+    | zero => simp [reifyStructT] at h
+    | succ m =>
+      cases xs with
+      | nil =>
+        simp only [reifyStructT] at h
+        cases h
+        simp [recValidateFields]
+      | cons x xr =>
+        unfold reifyStructT at h
+        simp only [bind, Outcome.bind] at h
+        cases ha : accessField o g tag vtag with
+        | err e => rw [ha] at h; simp at h
+        | panic s => rw [ha] at h; simp at h
+        | fuel => rw [ha] at h; simp at h
+        | ok fio =>
+          rw [ha] at h
+          simp only at h
+          cases fio with
+          | none =>
+            simp only at h
+            cases hr : reifyStructT std m o fr xr cfg with
+            | ok rest =>
+              rw [hr] at h
+              simp only [Outcome.ok.injEq] at h
+              subst h
+              simp only [recValidateFields, ha]
+              exact ih m xr rest cfg hflat' hr
+            | err e => rw [hr] at h; simp at h
+            | panic s => rw [hr] at h; simp at h
+            | fuel => rw [hr] at h; simp at h
+          | some fi =>
+            simp only at h
+            by_cases hsq : fi.tag.squash = true
+            · -- ',inline' on a primitive field is an error
+              simp only [hsq, if_true] at h
+              have hseq : (Outcome.ok () *> (Outcome.raise Reason.typeMismatch : Outcome GoVal)) =
+                  Outcome.raise Reason.typeMismatch := rfl
+              rw [hseq] at h
+              simp [Outcome.raise] at h
+            · have hsq' : fi.tag.squash = false := by simpa using hsq
+              simp only [hsq', Bool.false_eq_true, if_false] at h
+              cases hg : getField' std m { opts := { o with handling := fi.handling }, handling := fi.tag.handling, validators := fi.validators }
+                  (.prim k) x cfg fi.name with
+              | ok x' =>
+                rw [hg] at h
+                simp only at h
+                have hval := getField_prim_validated std m _ k x cfg fi.name x' hg
+                cases hr : reifyStructT std m o fr xr cfg with
+                | ok rest =>
+                  rw [hr] at h
+                  simp only [Outcome.ok.injEq] at h
+                  subst h
+                  simp only [recValidateFields, ha, recValidate_prim]
+                  simp only at hval
+                  rw [hval]
+                  exact ih m xr rest cfg hflat' hr
+                | err e => rw [hr] at h; simp at h
+                | panic s => rw [hr] at h; simp at h
+                | fuel => rw [hr] at h; simp at h
+              | err e => rw [hg] at h; simp at h
+              | panic s => rw [hg] at h; simp at h
+              | fuel => rw [hg] at h; simp at h
+
+/-- the same at the API: `cfg.Unpack(&target)` for a struct of primitive fields -/
+theorem unpack_flat_valid (std : Stdlib) (o : Opts) (fs : List (String × String × String × Ty)) (xs : List GoVal)
+    (cfg : Val) (v : GoVal) (hflat : FlatPrim fs) (h : unpack std o (.strct fs) (.strct xs) cfg = .ok v) :
+    recValidate std o (.strct fs) [] v = none := by
+  unfold unpack at h
+  simp only [bind, Outcome.bind] at h
+  cases hr : reifyStructT std unpackFuel o fs xs cfg with
+  | ok xs' =>
+    rw [hr] at h
+    simp only [Outcome.ok.injEq] at h
+    subst h
+    unfold recValidate
+    simp only [runValidators, List.findSome?_nil]
+    exact flat_struct_valid std o fs unpackFuel xs xs' cfg hflat hr
+  | err e => rw [hr] at h; simp at h
+  | panic s => rw [hr] at h; simp at h
+  | fuel => rw [hr] at h; simp at h
+
+/-- non-vacuity: a two-field struct, one field with a validator -/
+example : FlatPrim [("A", "", "min=1", Ty.prim (.int 64)), ("B", "name", "", Ty.prim .string)] := by
+  intro f hf
+  simp at hf
+  rcases hf with rfl | rfl
+  · exact ⟨.int 64, rfl⟩
+  · exact ⟨.string, rfl⟩
+
+end Ucfg.C04
